@@ -26,7 +26,9 @@ var bodies = [][]byte{
 }
 
 // error texts of failing producers: empty, shorter than a reply code, looking like a reply
-var producerTexts = []string{"", "4", "5", "45", "2", "451 4.3.0 looks like a reply", "x"}
+// the first word selects the class of the error value (sendx.producerError): timeout-class, context, EOF, closed
+var producerTexts = []string{"", "4", "5", "45", "2", "451 4.3.0 looks like a reply", "x",
+	"timeout: i/o timeout", "deadline exceeded while reading the source", "ctx deadline exceeded", "canceled by caller", "eof from the source", "closed network connection"}
 
 var negDev = []string{"451:4.3.0_try_again_later", "554:5.7.1_rejected_by_policy", "drop"}
 var oddDev = []string{"251:2.1.5_will_forward", "252:2.0.0_cannot_verify", "250:2.0.0_custom_ok", "354:go_ahead", "220:hello", "550", "421:4.3.2_shutting_down"}
